@@ -12,6 +12,7 @@ import (
 	"github.com/dapr/kit/crypto/aescbcaead"
 	"github.com/dapr/kit/crypto/aeskw"
 	"github.com/dapr/kit/crypto/padding"
+	"github.com/lestrrat-go/jwx/v2/jwa"
 	"github.com/lestrrat-go/jwx/v2/jwk"
 
 	"verif/harness/internal/mon"
@@ -82,30 +83,38 @@ type decRes struct {
 func panStr(p any) string { return "panic: " + fmt.Sprint(p) }
 
 func kEnc(via, alg string, key jwk.Key, nonce, pt, aad []byte) (r encRes) {
+	k2, kb := privKey(key)
+	p, n, a := lay(pt), lay(nonce), lay(aad)
 	defer func() {
-		if p := recover(); p != nil {
-			r = encRes{pan: panStr(p)}
+		if x := recover(); x != nil {
+			r = encRes{pan: panStr(x)}
 		}
 	}()
 	if via == "Encrypt" {
-		r.ct, r.tag, r.err = kc.Encrypt(lay(pt), alg, key, lay(nonce), lay(aad))
+		r.ct, r.tag, r.err = kc.Encrypt(p, alg, k2, n, a)
 	} else {
-		r.ct, r.tag, r.err = kc.EncryptSymmetric(lay(pt), alg, key, lay(nonce), lay(aad))
+		via = "EncryptSymmetric"
+		r.ct, r.tag, r.err = kc.EncryptSymmetric(p, alg, k2, n, a)
 	}
+	settle(via, alg, rpm("algorithm", alg, "key", key, "nonce", nonce, "plaintext", pt, "aad", aad), [][]byte{p, n, a, kb}, []string{"ciphertext", "tag"}, &r.ct, &r.tag)
 	return r
 }
 
 func kDec(via, alg string, key jwk.Key, nonce, ct, tag, aad []byte) (r decRes) {
+	k2, kb := privKey(key)
+	c, n, t, a := lay(ct), lay(nonce), lay(tag), lay(aad)
 	defer func() {
-		if p := recover(); p != nil {
-			r = decRes{pan: panStr(p)}
+		if x := recover(); x != nil {
+			r = decRes{pan: panStr(x)}
 		}
 	}()
 	if via == "Decrypt" {
-		r.pt, r.err = kc.Decrypt(lay(ct), alg, key, lay(nonce), lay(tag), lay(aad))
+		r.pt, r.err = kc.Decrypt(c, alg, k2, n, t, a)
 	} else {
-		r.pt, r.err = kc.DecryptSymmetric(lay(ct), alg, key, lay(nonce), lay(tag), lay(aad))
+		via = "DecryptSymmetric"
+		r.pt, r.err = kc.DecryptSymmetric(c, alg, k2, n, t, a)
 	}
+	settle(via, alg, rpm("algorithm", alg, "key", key, "nonce", nonce, "ciphertext", ct, "tag", tag, "aad", aad), [][]byte{c, n, t, a, kb}, []string{"plaintext"}, &r.pt)
 	return r
 }
 
@@ -116,43 +125,141 @@ type rawRes struct {
 }
 
 func kWrap(b cipher.Block, cek []byte) (r rawRes) {
+	in := lay(cek)
 	defer func() {
 		if p := recover(); p != nil {
 			r = rawRes{pan: panStr(p)}
 		}
 	}()
-	r.out, r.err = aeskw.Wrap(b, lay(cek))
+	r.out, r.err = aeskw.Wrap(b, in)
+	settle("aeskw.Wrap", "", rpm("cek", cek), [][]byte{in}, []string{"wrapped key"}, &r.out)
 	return r
 }
 
 func kUnwrap(b cipher.Block, c []byte) (r rawRes) {
+	in := lay(c)
 	defer func() {
 		if p := recover(); p != nil {
 			r = rawRes{pan: panStr(p)}
 		}
 	}()
-	r.out, r.err = aeskw.Unwrap(b, lay(c))
+	r.out, r.err = aeskw.Unwrap(b, in)
+	settle("aeskw.Unwrap", "", rpm("input", c), [][]byte{in}, []string{"unwrapped key"}, &r.out)
 	return r
 }
 
 func kSeal(a cipher.AEAD, nonce, pt, aad []byte) (r rawRes) {
+	n, p, ad := lay(nonce), lay(pt), lay(aad)
 	defer func() {
-		if p := recover(); p != nil {
-			r = rawRes{pan: panStr(p)}
+		if x := recover(); x != nil {
+			r = rawRes{pan: panStr(x)}
 		}
 	}()
-	r.out = a.Seal(nil, lay(nonce), lay(pt), lay(aad))
+	r.out = a.Seal(nil, n, p, ad)
+	settle("aescbcaead.Seal", "", rpm("nonce", nonce, "plaintext", pt, "aad", aad), [][]byte{n, p, ad}, []string{"sealed message"}, &r.out)
 	return r
 }
 
 func kOpen(a cipher.AEAD, nonce, sealed, aad []byte) (r rawRes) {
+	n, s, ad := lay(nonce), lay(sealed), lay(aad)
 	defer func() {
-		if p := recover(); p != nil {
-			r = rawRes{pan: panStr(p)}
+		if x := recover(); x != nil {
+			r = rawRes{pan: panStr(x)}
 		}
 	}()
-	r.out, r.err = a.Open(nil, lay(nonce), lay(sealed), lay(aad))
+	r.out, r.err = a.Open(nil, n, s, ad)
+	settle("aescbcaead.Open", "", rpm("nonce", nonce, "sealed", sealed, "aad", aad), [][]byte{n, s, ad}, []string{"plaintext"}, &r.out)
 	return r
+}
+
+// ------------------------------------------------------------ "the caller re-uses its buffers" discipline
+
+// Every kit call wrapper hands kit PRIVATE copies of its inputs (lay / privKey)
+// and, as soon as the call has returned, overwrites every one of them - data,
+// nonce, tag, AAD, the oct key's bytes, including any spare capacity - before
+// anybody looks at the outputs (settle). A caller that wipes key material or
+// re-uses a read buffer does exactly this. The outputs the judges then compare
+// with the reference and feed to the inverse operation are the outputs as they
+// are AFTER the wipe; the pristine inputs live in the harness's own slices. An
+// output that changed under the wipe shares memory with an input; it is
+// reported under its own signature (the comparisons that follow would only say
+// "differs from the reference").
+var (
+	curJudge    *judge
+	wipedCalls  int64 // calls whose inputs were overwritten after return (flushed into the "wipe.calls_checked" counter per group)
+	wipedInputs int64
+	aliasExact  = map[string]bool{}
+)
+
+// privKey returns a JWK private to one call: for an oct key a fresh JWK over a
+// fresh copy of the key bytes (jwx keeps the slice it is given, so overwriting
+// that copy afterwards is "the caller wipes its key"), any other key unchanged.
+func privKey(key jwk.Key) (jwk.Key, []byte) {
+	if key == nil || key.KeyType() != jwa.OctetSeq {
+		return key, nil
+	}
+	var b []byte
+	if key.Raw(&b) != nil || len(b) == 0 {
+		return key, nil
+	}
+	c := clone(b)
+	k2, err := jwk.FromRaw(c)
+	if err != nil {
+		return key, nil
+	}
+	return k2, c
+}
+
+func wipe(b []byte) {
+	b = b[:cap(b)]
+	for i := range b {
+		b[i] = ^b[i] // every byte changes
+	}
+}
+
+// settle overwrites the call's input buffers and checks that no output moved.
+func settle(fn, alg string, rp replayFn, inputs [][]byte, names []string, outs ...*[]byte) {
+	snaps := make([][]byte, len(outs))
+	for i, o := range outs {
+		snaps[i] = clone(*o)
+	}
+	for _, in := range inputs {
+		if in != nil {
+			wipe(in)
+			wipedInputs++
+		}
+	}
+	wipedCalls++
+	for i, o := range outs {
+		if !bytes.Equal(*o, snaps[i]) && curJudge != nil {
+			before, after, name := snaps[i], clone(*o), names[i]
+			// the /spare-capacity suffix only if this entry point did not already share memory with exactly-sized inputs
+			base, sp := sigOf(fn, alg, "output-aliases-input-buffer"), curJudge.spare
+			if sp < 0 {
+				aliasExact[base] = true
+			} else if aliasExact[base] {
+				curJudge.spare = -1
+			}
+			defer func() { curJudge.spare = sp }()
+			curJudge.viol(sigOf(fn, alg, "output-aliases-input-buffer"),
+				fmt.Sprintf("%s(%s): the returned %s changed when the caller overwrote its own input buffers after the call returned - the output shares memory with an input, so a caller that wipes or re-uses its buffer loses the result", fn, alg, name),
+				func() map[string]any {
+					m := rp()
+					m["output"] = name
+					m["output_at_return"] = hx(before)
+					m["output_after_inputs_were_overwritten"] = hx(after)
+					return m
+				})
+		}
+	}
+}
+
+func flushWipeCounters() {
+	if wipedCalls > 0 {
+		rec.Count("wipe.calls_checked", int(wipedCalls))
+		rec.Count("wipe.input_buffers_overwritten", int(wipedInputs))
+	}
+	wipedCalls, wipedInputs = 0, 0
 }
 
 // rpm builds a lazily evaluated replay record from alternating key/value arguments.
@@ -1026,6 +1133,19 @@ func runHSDirect(j *judge, g group) {
 		j.viol(sigOf("aescbcaead.New", name, "valid-input-rejected"), "constructor rejected a key of the right size: "+err.Error(), rpm("key", key))
 		return
 	}
+	// does the constructed AEAD keep the caller's key slice? (a constructor, not a one-shot call: recorded, not judged)
+	{
+		kcopy := clone(key)
+		if a2, err := ctor(kcopy); err == nil {
+			wipe(kcopy)
+			n0, p0 := rng.Bytes(16), rng.Bytes(20)
+			rct, rtag := refHSSeal(name, key, n0, p0, nil)
+			if s := kSeal(a2, n0, p0, nil); s.pan == "" && !bytes.Equal(s.out, append(clone(rct), rtag...)) {
+				rec.Count("observed.aescbcaead.constructor_keeps_callers_key_slice", 1)
+				rec.Observe("aescbcaead.NewAESCBC*(key) keeps sub-slices of the caller's key (macKey/encKey point into it) instead of copying: if the caller overwrites its key slice after constructing the AEAD, later Seal/Open use the overwritten key. The object legitimately needs the key for its lifetime and crypto.EncryptSymmetric/DecryptSymmetric build the AEAD per call from the JWK's bytes, so this is recorded, not judged")
+			}
+		}
+	}
 	if aead.NonceSize() != 16 || aead.Overhead() != pr.tagLen {
 		j.viol(sigOf("aescbcaead", name, "sizes-differ-from-rfc"), fmt.Sprintf("NonceSize=%d Overhead=%d, RFC 7518: 16 / %d", aead.NonceSize(), aead.Overhead(), pr.tagLen), nil)
 	}
@@ -1178,24 +1298,40 @@ func runHSDirect(j *judge, g group) {
 // ------------------------------------------------------------ padding directly
 
 func kPad(buf []byte, size int) (r rawRes) {
+	in := lay(buf)
 	defer func() {
 		if p := recover(); p != nil {
 			r = rawRes{pan: panStr(p)}
 		}
 	}()
-	r.out, r.err = padding.PadPKCS7(lay(buf), size)
+	r.out, r.err = padding.PadPKCS7(in, size)
+	settle("padding.PadPKCS7", "", rpm("input", buf, "block_size", size), [][]byte{in}, []string{"padded buffer"}, &r.out)
 	return r
 }
 
+// kUnpad: UnpadPKCS7 returns a prefix of the buffer it is given (like
+// bytes.TrimRight); that is its documented shape in every version of the code,
+// not a defect, so the result is copied out BEFORE the input is overwritten and
+// the sharing is only counted.
 func kUnpad(buf []byte, size int) (r rawRes) {
+	in := lay(buf)
 	defer func() {
 		if p := recover(); p != nil {
 			r = rawRes{pan: panStr(p)}
 		}
 	}()
-	r.out, r.err = padding.UnpadPKCS7(lay(buf), size)
+	out, err := padding.UnpadPKCS7(in, size)
+	r.out, r.err = clone(out), err
+	wipe(in)
+	wipedCalls++
+	wipedInputs++
+	if len(out) > 0 && !bytes.Equal(out, r.out) {
+		unpadShares++
+	}
 	return r
 }
+
+var unpadShares int64
 
 // runPaddingDirect: kit's PKCS#7 against the in-harness one, every case in every buffer layout.
 func runPaddingDirect(j *judge, g group) {
